@@ -126,49 +126,46 @@ def _io_chunks(io_path, wd):
     return paths
 
 
-EXH_LADDER = [(10, 48), (8, 32), (6, 24), (4, 12), (2, 6)]
-
-
-def expand_images(io_path, wd, max_exh=10, nrandom=48, timeout=2400, stats=None, want_per_run=None):
+def expand_images(io_path, wd, max_exh=10, nrandom=48, timeout=2400, stats=None, want_per_run=None, rng=None):
     """TLC enumerates the crash images of every recorded run (spec/DiskTrace.tla); long recordings are validated in
-    chunks of whole runs. The images are streamed; when a chunk yields far more images than will be sampled from it
-    (a change that leaves many more chunks un-fsynced makes the subset enumeration explode), TLC is stopped and the chunk
-    is redone with a smaller exhaustive threshold / fewer random subsets (the structured subsets - none, all, singletons,
-    all-but-one - are always there)."""
+    chunks of whole runs. The images are streamed; per run at most 8 x (the number that will be sampled) are kept
+    (uniform reservoir), and a crash point whose per-file choices multiply beyond ProdCap = 4 x that number is enumerated
+    in the structured one-file-at-a-time form (DiskTrace!Mixed) - a change that leaves whole files un-fsynced must not
+    make the enumeration explode."""
     by = {}
-    parts = _io_chunks(io_path, wd)
-    ladder = [(max_exh, nrandom)] + [x for x in EXH_LADDER if x[0] < max_exh]
-    for part in parts:
-        nruns = 0
-        with open(part) as f:
-            for ln in f:
-                if ln.startswith('{"ev":"reset"'):
-                    nruns += 1
-        budget = max(150000, 6 * (want_per_run or 200) * max(1, nruns))
-        for step, (mx, nr) in enumerate(ladder):
-            local, cnt = {}, [0]
-            last = step == len(ladder) - 1
+    rng = rng or random.Random(1)
+    want = want_per_run or 200
+    keep_max = 8 * want
+    cfg = cfg_text(constants={"TraceFile": "io.ndjson", "MaxExh": max_exh, "NRandom": nrandom, "ProdCap": max(64, 4 * want)},
+                   invariants=["Emit"], post="Consumed")
+    for part in _io_chunks(io_path, wd):
+        local, seen, cnt = {}, {}, [0]
 
-            def on_payload(ln):
-                im = parse_payload(ln, "IMG")
-                if im is None:
+        def on_payload(ln):
+            im = parse_payload(ln, "IMG")
+            if im is None:
+                return True
+            cnt[0] += 1
+            p = im["path"]
+            k = seen.get(p, 0) + 1
+            seen[p] = k
+            lst = local.setdefault(p, [])
+            if k <= keep_max:
+                slot = len(lst)
+                lst.append(None)
+            else:
+                slot = rng.randrange(k)
+                if slot >= keep_max:
                     return True
-                for k in ("keep", "len"):
-                    if isinstance(im[k], list):   # ToJson of an empty function
-                        im[k] = {}
-                local.setdefault(im["path"], []).append(im)
-                cnt[0] += 1
-                return last or cnt[0] <= budget
+            for f in ("keep", "len"):
+                if isinstance(im[f], list):   # ToJson of an empty function
+                    im[f] = {}
+            lst[slot] = im
+            return True
 
-            cfg = cfg_text(constants={"TraceFile": "io.ndjson", "MaxExh": mx, "NRandom": nr, "ProdCap": 20000}, invariants=["Emit"], post="Consumed")
-            r = tlc("DiskTrace", cfg, files={"io.ndjson": part}, timeout=timeout, on_payload=on_payload)
-            if r.error == "aborted":
-                if stats is not None:
-                    stats["disk_exh_lowered"] = stats.get("disk_exh_lowered", 0) + 1
-                continue
-            if r.error or r.violated:
-                raise Inconclusive("DiskTrace failed: %s %s\n%s" % (r.error, r.violated, r.errctx or r.out[-3000:]))
-            break
+        r = tlc("DiskTrace", cfg, files={"io.ndjson": part}, timeout=timeout, on_payload=on_payload)
+        if r.error or r.violated:
+            raise Inconclusive("DiskTrace failed: %s %s\n%s" % (r.error, r.violated, r.errctx or r.out[-3000:]))
         for k, v in local.items():
             by.setdefault(k, []).extend(v)
         if stats is not None:
@@ -502,7 +499,7 @@ class Engine:
                                        "event": {"msg": "%s %s" % (v["event"].get("call"), v["event"].get("name"))},
                                        "props": IO_ATTR.get(v["clause"], ["C01"]), "replay_job": prune_job(job, None) if job else {}})
             by = expand_images(io, self.wd, max_exh=max_exh, nrandom=nrandom, stats=self.stats,
-                               want_per_run=per_run[min(lvl, len(per_run) - 1)])
+                               want_per_run=per_run[min(lvl, len(per_run) - 1)], rng=self.rng)
             t2 = time.time()
             en = expand_next if isinstance(expand_next, (list, tuple)) else [expand_next]
             n = attach_forks(jobs, by, self.rng, per_run[min(lvl, len(per_run) - 1)],
